@@ -41,6 +41,13 @@ func NewLazyWith(core Core, fields []Field) Core {
 	}
 }
 
+// Level reports the minimum enabled level of the wrapped core, like the other
+// wrapping cores do; without it LevelOf would have to probe Enabled and could
+// not see a level outside the named range.
+func (d *lazyWithCore) Level() Level {
+	return LevelOf(d.Core)
+}
+
 func (d *lazyWithCore) initOnce() {
 	d.Once.Do(func() {
 		d.lazy = d.Core.With(d.fields)
